@@ -76,6 +76,16 @@ ARGS = {
 }
 
 
+# non-default options of queries that open further code paths (one extra run each)
+VARIANTS = {
+    "in_hull": lambda: [("normalized=True", dict(B=B_(), normalized=flag("normalized", True)))],
+    "hull_dist_scaling": lambda: [("neutral_point given", dict(B=B_(), neutral_point=arr("neutral_point", S("F"), U_REL, sign="POS")))],
+    "hull_l1_scaling": lambda: [("relative=False", dict(B=arr("B", S("N", "F"), U_CAPTURE, "LIGHT", sign="NONNEG"), relative=flag("relative", False)))],
+    "sample_in_hull": lambda: [("l1 given", dict(n=intv("n", "NSAMP"), seed=intv("seed"), engine=strv("engine", "Halton"), l1=num("l1", U_REL, sign="POS")))],
+    "range_of_solutions": lambda: [("n=None", dict(B=B_(), error=strv("error", "raise"), n=none()))],
+}
+
+
 def check(rep, an, tier):
     model = an.model
     methods = model.modules[MOD].classes.get(CLS)
@@ -112,6 +122,14 @@ def check(rep, an, tier):
                 rep.advisory(f"{entry}: caller-supplied dict keyword argument is updated in place at {ev.loc} `{ev.text()[:50]}`")
         R.rule_no_global_state(rep, res, entry)
         global_rng(rep, res, entry)
+        for vlabel, vkw in VARIANTS.get(name, lambda: [])():
+            vres = an.run(f"{EST}.{name}", kws=vkw, self_fields=dict(fields), config=vlabel)
+            for ev in vres.events("self_store")[:3]:
+                rep.violated("R-EFFECT", "query has an empty write set", where=ev.loc, construct=ev.text(), entry=entry, config=vlabel,
+                             msg=f"`{name}` [{vlabel}] assigns self.{ev.d['attr']}")
+            R.rule_purity(rep, vres, entry)
+            R.rule_no_global_state(rep, vres, entry)
+            global_rng(rep, vres, entry)
     # ------------------------------------------------------------ registrations: exact write sets on every path
     reg_cfgs = {
         "register_uncertainty": [("given", dict(filters_uncertainty=arr("filters_uncertainty", S("F", "D"), {"phi": 1}))),
@@ -148,6 +166,18 @@ def check(rep, an, tier):
                           construct=f"self.{a} in {name} [{label}]", entry=entry, config=label,
                           msg=(f"re-registering does not fully replace the old value: self.{a} is "
                                + ("only conditionally assigned" if a in written else "not assigned") + f" for {label}"))
+            # re-registering fully replaces the old value: what is stored must not be computed from the old content of the
+            # group it replaces (the documented add=True modes of the adaptation registrations excepted)
+            adding = "add=True" in label
+            for ev in top:
+                a_ = ev.d["attr"]
+                if a_ not in want or adding:
+                    continue
+                old = sorted(o for o in ev.d["val"].flat().data if o.startswith("self.") and o[5:] in want)
+                rep.check("R-EFFECT", f"{name} does not rebuild self.{a_} from the value it replaces", not old, where=ev.loc, construct=ev.text(),
+                          entry=entry, config=label,
+                          msg=f"the stored self.{a_} is computed from the previously registered {old}: registering the same values in a "
+                              f"different order / after other registrations yields a different estimator")
             extra = written - want
             rep.check("R-EFFECT", f"{name} writes only its own group", not extra, where=res.fn.loc(), construct=f"write set of {name} [{label}]",
                       entry=entry, config=label, msg=f"also writes {sorted(extra)}")
